@@ -917,6 +917,18 @@ pub fn run_stream<C: for<'x> Cfg<'x, StreamIn>>(job: &Job, acc: &mut Acc) {
     );
 }
 
+/// an iterator that gives no size hint at all (like `filter`, `from_fn`, a lexer): the boxed stream kind uses
+/// it, the plain stream kind an exact-size iterator
+pub struct NoHint<I>(pub I);
+impl<I: Iterator> Iterator for NoHint<I> {
+    type Item = I::Item;
+    fn next(&mut self) -> Option<I::Item> {
+        self.0.next()
+    }
+    fn size_hint(&self) -> (usize, Option<usize>) {
+        (0, None)
+    }
+}
 pub type BoxedStreamIn<'a> = chumsky::input::BoxedStream<'a, char>;
 impl<'a> InK<'a> for BoxedStreamIn<'a> {
     type T = char;
@@ -926,7 +938,7 @@ pub fn run_boxed_stream<C: for<'x> Cfg<'x, BoxedStreamIn<'x>>>(job: &Job, acc: &
     let bufs: Vec<Vec<char>> = job.inputs.to_vec();
     run_generic::<BoxedStreamIn, C>(
         job,
-        &|i| chumsky::input::Stream::from_iter(counting(bufs[i].clone())).boxed(),
+        &|i| chumsky::input::Stream::from_iter(NoHint(counting(bufs[i].clone()))).boxed(),
         &|_| (0, 0),
         &|i, s, _| index_norm(bufs[i].len(), s),
         &ident,
@@ -939,6 +951,7 @@ pub type MappedIn<'a> = chumsky::input::MappedInput<char, SimpleSpan, &'a [(char
 impl<'a> InK<'a> for MappedIn<'a> {
     type T = char;
     type S = SimpleSpan<usize>;
+    crate::borrow_leaves!();
 }
 fn map_tok<'a>(ts: &'a (char, SimpleSpan)) -> (&'a char, &'a SimpleSpan) {
     (&ts.0, &ts.1)
@@ -1077,6 +1090,7 @@ impl<'a> InK<'a> for &'a [char; ARR_N] {
     fn slice_with<C: Cfg<'a, Self>>(p: BP<'a, Self, C>) -> BP<'a, Self, C> {
         p.map_with(|_, e| chars_slice_val(e.slice())).fin()
     }
+    crate::borrow_leaves!();
 }
 /// `&[T; N]`: only the inputs of length exactly N are run (the others are skipped by `mk` never being
 /// called: the job's input list is filtered by the unit)
